@@ -253,6 +253,7 @@ pub struct BatchCfg {
     pub determinism_sample: u64,
     pub sys_max_n: usize,
     pub sys_variants: usize,
+    pub dump_digests: Option<PathBuf>,
 }
 
 pub struct Found {
@@ -285,105 +286,255 @@ struct Summary {
     stats: Stats,
     found: Option<Found>,
     harness: Option<String>,
-    sample: Option<J>,
+    sample: Option<(String, Vec<String>, u64)>,
     profile: String,
 }
 
-pub fn run_batch(cfg: &BatchCfg) -> Result<BatchOut, String> {
-    let t0 = Instant::now();
-    let workers = cfg.workers.max(1);
+/// One shard of a batch, executed single-threaded (in a child process, so that process-wide
+/// state in the code under test cannot leak between concurrently running shards).
+fn run_shard(cfg: &BatchCfg, shard: u64, of: u64, only: Option<&[u64]>, tag: &str) -> Result<Vec<Summary>, String> {
     let sys_hist = if cfg.prop == Prop::C02 { gen::systematic_c02_histories(cfg.sys_max_n) } else { vec![] };
-    let sys_variants = cfg.sys_variants;
-    let sys_len = (sys_hist.len() * sys_variants) as u64;
+    let sys = SysPrefix { hist: sys_hist, variants: cfg.sys_variants };
+    let sys_len = sys.len() as u64;
     let total = cfg.runs + sys_len;
-    let mut handles = Vec::new();
-    for w in 0..workers {
-        let prop = cfg.prop;
-        let seed = cfg.verif_seed;
-        let sys_hist = sys_hist.clone();
-        handles.push(std::thread::Builder::new().stack_size(64 << 20).spawn(move || -> Result<Vec<Summary>, String> {
-            let mut env = Env::new(&format!("w{}", w))?;
-            let pools = Pools::new(seed);
-            let sys = SysPrefix { hist: sys_hist, variants: sys_variants };
-            let mut out = Vec::new();
-            let mut i = w as u64;
-            while i < total {
-                let t_run = Instant::now();
-                let r = run_index(prop, seed, i, &pools, &sys, &mut env);
-                if std::env::var_os("JBSIM_SLOW").is_some() && t_run.elapsed().as_millis() > 50 {
-                    eprintln!("SLOW run {} {}ms {} ops={} samples={}", i, t_run.elapsed().as_millis(), r.swarm, r.ops.len(), r.stats.samples_compared);
-                }
-                let sample = if i % (total / 6).max(1) == 0 || (i >= sys_len && i < sys_len + 2) {
-                    Some(J::obj().set("run", J::u(i)).set("swarm", J::s(&r.swarm)).set("ops", J::strs(r.ops.iter().take(16).map(|o| o.to_text()))).set("ops_total", J::u(r.ops.len() as u64)))
-                } else {
-                    None
-                };
-                let profile = r.swarm.split_whitespace().next().unwrap_or("").to_string();
-                out.push(Summary {
-                    i,
-                    trace_hash: r.trace_hash,
-                    digest: r.digest,
-                    nontrivial: r.nontrivial,
-                    stats: r.stats,
-                    found: r.violation.map(|v| Found { run: i, violation: v, ops: r.ops.clone(), swarm: r.swarm.clone() }),
-                    harness: r.harness,
-                    sample,
-                    profile,
-                });
-                i += workers as u64;
-            }
-            Ok(out)
-        }).map_err(|e| e.to_string())?);
+    let mut env = Env::new(tag)?;
+    let pools = Pools::new(cfg.verif_seed);
+    let mut out = Vec::new();
+    let indices: Vec<u64> = match only {
+        Some(v) => v.to_vec(),
+        None => (0..total).filter(|i| i % of == shard).collect(),
+    };
+    let status = std::env::var_os("JBSIM_STATUS_FILE").map(PathBuf::from);
+    for i in indices {
+        if let Some(p) = &status {
+            let _ = std::fs::write(p, format!("{}", i));
+        }
+        let t_run = Instant::now();
+        let r = run_index(cfg.prop, cfg.verif_seed, i, &pools, &sys, &mut env);
+        if std::env::var_os("JBSIM_SLOW").is_some() && t_run.elapsed().as_millis() > 50 {
+            eprintln!("SLOW run {} {}ms {} ops={} samples={}", i, t_run.elapsed().as_millis(), r.swarm, r.ops.len(), r.stats.samples_compared);
+        }
+        let sample = if i % (total / 6).max(1) == 0 || (i >= sys_len && i < sys_len + 2) { Some((r.swarm.clone(), r.ops.iter().take(16).map(|o| o.to_text()).collect::<Vec<_>>(), r.ops.len() as u64)) } else { None };
+        let profile = r.swarm.split_whitespace().next().unwrap_or("").to_string();
+        out.push(Summary {
+            i,
+            trace_hash: r.trace_hash,
+            digest: r.digest,
+            nontrivial: r.nontrivial,
+            stats: r.stats,
+            found: r.violation.map(|v| Found { run: i, violation: v, ops: r.ops.clone(), swarm: r.swarm.clone() }),
+            harness: r.harness,
+            sample,
+            profile,
+        });
     }
-    let mut all: Vec<Summary> = Vec::new();
-    for h in handles {
-        match h.join() {
-            Ok(Ok(v)) => all.extend(v),
-            Ok(Err(e)) => return Err(e),
-            Err(_) => return Err("worker thread panicked (harness bug)".into()),
+    Ok(out)
+}
+
+fn clean(s: &str) -> String {
+    s.replace(['\t', '\n'], " ")
+}
+
+fn write_shard(path: &Path, sums: &[Summary]) -> Result<(), String> {
+    use std::fmt::Write as _;
+    let mut t = String::new();
+    let mut stats = Stats::default();
+    for s in sums {
+        let _ = writeln!(t, "R\t{}\t{:x}\t{:x}\t{}\t{}", s.i, s.trace_hash, s.digest, s.nontrivial as u8, clean(&s.profile));
+        stats.merge(&s.stats);
+        if let Some(f) = &s.found {
+            let _ = writeln!(t, "F\t{}\t{}\t{}\t{}\t{}\t{}", f.run, f.violation.oracle, clean(&f.violation.class), clean(&f.violation.detail), f.violation.op_index, clean(&f.swarm));
+            for o in &f.ops {
+                let _ = writeln!(t, "O\t{}", o.to_text());
+            }
+            t.push_str("E\n");
+        }
+        if let Some(h) = &s.harness {
+            let _ = writeln!(t, "H\t{}\t{}", s.i, clean(h));
+        }
+        if let Some((sw, ops, n)) = &s.sample {
+            let _ = writeln!(t, "M\t{}\t{}\t{}", s.i, clean(sw), n);
+            for o in ops {
+                let _ = writeln!(t, "O\t{}", o);
+            }
+            t.push_str("E\n");
         }
     }
-    all.sort_by_key(|s| s.i);
+    for (k, v) in [("ops", stats.ops), ("noop_ops", stats.noop_ops), ("api_calls", stats.api_calls), ("comparisons", stats.comparisons), ("samples_compared", stats.samples_compared), ("vacuous", stats.vacuous)] {
+        let _ = writeln!(t, "S\t{}\t{}", k, v);
+    }
+    for (k, v) in &stats.probes {
+        let _ = writeln!(t, "P\t{}\t{}", k, v);
+    }
+    for (k, v) in &stats.kinds {
+        let _ = writeln!(t, "K\t{}\t{}", k, v);
+    }
+    t.push_str("DONE\n");
+    std::fs::write(path, t).map_err(|e| e.to_string())
+}
 
-    // determinism: re-run a sample on a fresh thread with a fresh environment and compare digests
-    let mut pairs = 0u64;
-    let mut mism = 0u64;
+struct ShardData {
+    runs: Vec<(u64, u64, u64, bool, String)>,
+    stats: Stats,
+    found: Vec<Found>,
+    harness: Vec<String>,
+    samples: Vec<(u64, J)>,
+}
+
+fn read_shard(path: &Path) -> Result<ShardData, String> {
+    let text = std::fs::read_to_string(path).map_err(|e| format!("{}: {}", path.display(), e))?;
+    if !text.ends_with("DONE\n") {
+        return Err(format!("{}: incomplete shard output (child died?)", path.display()));
+    }
+    let mut d = ShardData { runs: vec![], stats: Stats::default(), found: vec![], harness: vec![], samples: vec![] };
+    let mut lines = text.lines();
+    while let Some(l) = lines.next() {
+        let f: Vec<&str> = l.split('\t').collect();
+        match f[0] {
+            "R" if f.len() >= 6 => d.runs.push((f[1].parse().unwrap_or(0), u64::from_str_radix(f[2], 16).unwrap_or(0), u64::from_str_radix(f[3], 16).unwrap_or(0), f[4] == "1", f[5].to_string())),
+            "F" if f.len() >= 7 => {
+                let mut ops = Vec::new();
+                for o in lines.by_ref() {
+                    if o == "E" {
+                        break;
+                    }
+                    if let Some(t) = o.strip_prefix("O\t") {
+                        ops.push(TOp::from_text(t).ok_or_else(|| format!("bad op line in shard output: {}", t))?);
+                    }
+                }
+                let oracle: &'static str = Box::leak(f[2].to_string().into_boxed_str());
+                d.found.push(Found { run: f[1].parse().unwrap_or(0), violation: Violation { oracle, class: f[3].to_string(), detail: f[4].to_string(), op_index: f[5].parse().unwrap_or(0) }, ops, swarm: f[6].to_string() });
+            }
+            "H" if f.len() >= 3 => d.harness.push(format!("run {}: {}", f[1], f[2])),
+            "M" if f.len() >= 4 => {
+                let mut ops = Vec::new();
+                for o in lines.by_ref() {
+                    if o == "E" {
+                        break;
+                    }
+                    if let Some(t) = o.strip_prefix("O\t") {
+                        ops.push(t.to_string());
+                    }
+                }
+                let i: u64 = f[1].parse().unwrap_or(0);
+                d.samples.push((i, J::obj().set("run", J::u(i)).set("swarm", J::s(f[2])).set("ops", J::strs(ops)).set("ops_total", J::u(f[3].parse().unwrap_or(0)))));
+            }
+            "S" if f.len() >= 3 => {
+                let v: u64 = f[2].parse().unwrap_or(0);
+                match f[1] {
+                    "ops" => d.stats.ops += v,
+                    "noop_ops" => d.stats.noop_ops += v,
+                    "api_calls" => d.stats.api_calls += v,
+                    "comparisons" => d.stats.comparisons += v,
+                    "samples_compared" => d.stats.samples_compared += v,
+                    "vacuous" => d.stats.vacuous += v,
+                    _ => {}
+                }
+            }
+            "P" if f.len() >= 3 => *d.stats.probes.entry(f[1].to_string()).or_insert(0) += f[2].parse::<u64>().unwrap_or(0),
+            "K" if f.len() >= 3 => *d.stats.kinds.entry(f[1].to_string()).or_insert(0) += f[2].parse::<u64>().unwrap_or(0),
+            _ => {}
+        }
+    }
+    Ok(d)
+}
+
+/// Child side of `run_batch`.
+pub fn run_child(cfg: &BatchCfg, shard: u64, of: u64, only: Option<Vec<u64>>, out: &Path) -> i32 {
+    match run_shard(cfg, shard, of, only.as_deref(), &format!("w1-{}-{}", shard, if only.is_some() { "det" } else { "main" })) {
+        Ok(sums) => match write_shard(out, &sums) {
+            Ok(()) => 0,
+            Err(e) => {
+                eprintln!("w1child: {}", e);
+                2
+            }
+        },
+        Err(e) => {
+            eprintln!("w1child: {}", e);
+            2
+        }
+    }
+}
+
+fn spawn_child(cfg: &BatchCfg, shard: u64, of: u64, only: Option<&Path>, out: &Path, status: &Path) -> Result<std::process::Child, String> {
+    let exe = std::env::current_exe().map_err(|e| e.to_string())?;
+    let mut c = std::process::Command::new(exe);
+    c.arg("w1child").arg(cfg.prop.id());
+    c.args(["--seed", &cfg.verif_seed.to_string(), "--runs", &cfg.runs.to_string(), "--sys-variants", &cfg.sys_variants.to_string()]);
+    c.args(["--shard", &shard.to_string(), "--of", &of.to_string(), "--out", out.to_str().unwrap()]);
+    if let Some(o) = only {
+        c.args(["--only", o.to_str().unwrap()]);
+    }
+    c.env("JBSIM_STATUS_FILE", status);
+    c.stdout(std::process::Stdio::null());
+    // stderr is inherited (the check driver redirects it to a log file)
+    c.spawn().map_err(|e| e.to_string())
+}
+
+/// Parent: shard the batch over single-threaded child processes, merge their outputs in index order.
+pub fn run_batch(cfg: &BatchCfg) -> Result<BatchOut, String> {
+    let t0 = Instant::now();
+    let workers = cfg.workers.max(1) as u64;
+    let sys_len = if cfg.prop == Prop::C02 { (gen::systematic_c02_histories(cfg.sys_max_n).len() * cfg.sys_variants) as u64 } else { 0 };
+    let total = cfg.runs + sys_len;
+    let dir = crate::env::scratch_root().join("w1-parent");
+    std::fs::create_dir_all(&dir).map_err(|e| e.to_string())?;
+    let mut children = Vec::new();
+    for k in 0..workers {
+        let out = dir.join(format!("shard.{}", k));
+        let status = dir.join(format!("status.{}", k));
+        children.push((k, spawn_child(cfg, k, workers, None, &out, &status)?, out, status, String::new(), Instant::now()));
+    }
+    // determinism sample: the same runs again, in one more process, in reverse order
+    let mut det_child = None;
+    let mut det_idx: Vec<u64> = Vec::new();
     if cfg.determinism_sample > 0 {
         let mut r = Rng::new(mix(&[cfg.verif_seed, 0xde7e]));
         let mut idx: BTreeSet<u64> = BTreeSet::new();
         while (idx.len() as u64) < cfg.determinism_sample.min(total) {
             idx.insert(r.below(total as usize) as u64);
         }
-        let prop = cfg.prop;
-        let seed = cfg.verif_seed;
-        let sys_hist2 = sys_hist.clone();
-        let idxv: Vec<u64> = idx.iter().copied().collect();
-        let again = std::thread::Builder::new()
-            .stack_size(64 << 20)
-            .spawn(move || -> Result<Vec<(u64, u64, u64)>, String> {
-                let mut env = Env::new("det")?;
-                let pools = Pools::new(seed);
-                let sys = SysPrefix { hist: sys_hist2, variants: sys_variants };
-                // reverse order on purpose: a different cache / allocation history
-                Ok(idxv.iter().rev().map(|i| {
-                    let r = run_index(prop, seed, *i, &pools, &sys, &mut env);
-                    (*i, r.trace_hash, r.digest)
-                }).collect())
-            })
-            .map_err(|e| e.to_string())?
-            .join()
-            .map_err(|_| "determinism thread panicked".to_string())??;
-        for (i, th, dg) in again {
-            let s = &all[i as usize];
-            pairs += 1;
-            if s.trace_hash != th || s.digest != dg {
-                mism += 1;
+        det_idx = idx.iter().rev().copied().collect();
+        let f = dir.join("det.only");
+        std::fs::write(&f, det_idx.iter().map(|i| i.to_string()).collect::<Vec<_>>().join("\n")).map_err(|e| e.to_string())?;
+        let out = dir.join("shard.det");
+        let status = dir.join("status.det");
+        det_child = Some((spawn_child(cfg, 0, 1, Some(&f), &out, &status)?, out));
+    }
+    let mut harness_errors: Vec<String> = Vec::new();
+    // wait, watching for children that stop making progress
+    loop {
+        let mut alive = 0;
+        for (k, c, _, status, last, since) in children.iter_mut() {
+            match c.try_wait() {
+                Ok(Some(st)) => {
+                    if !st.success() && !last.starts_with("exited") {
+                        harness_errors.push(format!("worker process {} ended abnormally ({:?}) while executing run {}", k, st, std::fs::read_to_string(&*status).unwrap_or_default()));
+                    }
+                    *last = "exited".into();
+                }
+                Ok(None) => {
+                    alive += 1;
+                    let cur = std::fs::read_to_string(&*status).unwrap_or_default();
+                    if cur != *last {
+                        *last = cur;
+                        *since = Instant::now();
+                    } else if since.elapsed().as_secs() > 300 {
+                        let _ = c.kill();
+                        harness_errors.push(format!("worker process {} made no progress for 300 s in run {} (hang inside the code under test?)", k, last));
+                        *last = "exited-killed".into();
+                    }
+                }
+                Err(e) => harness_errors.push(e.to_string()),
             }
         }
+        if alive == 0 {
+            break;
+        }
+        std::thread::sleep(std::time::Duration::from_millis(10));
     }
-
     let mut out = BatchOut {
-        evaluations: all.len() as u64,
+        evaluations: 0,
         distinct_nontrivial: 0,
         distinct_histories: 0,
         stats: Stats::default(),
@@ -391,37 +542,74 @@ pub fn run_batch(cfg: &BatchCfg) -> Result<BatchOut, String> {
         harness_errors: vec![],
         samples: vec![],
         wall_s: 0.0,
-        determinism_pairs: pairs,
-        determinism_mismatches: mism,
+        determinism_pairs: 0,
+        determinism_mismatches: 0,
         profiles: BTreeMap::new(),
         sys_len,
     };
-    let mut seen = BTreeSet::new();
-    let mut seen_nt = BTreeSet::new();
-    for s in all {
-        seen.insert(s.trace_hash);
-        if s.nontrivial {
-            seen_nt.insert(s.trace_hash);
-        }
-        out.stats.merge(&s.stats);
-        *out.profiles.entry(s.profile).or_insert(0) += 1;
-        if let Some(f) = s.found {
-            out.found.push(f);
-        }
-        if let Some(h) = s.harness {
-            if out.harness_errors.len() < 10 {
-                out.harness_errors.push(format!("run {}: {}", s.i, h));
+    let mut runs: Vec<(u64, u64, u64, bool, String)> = Vec::new();
+    let mut samples: Vec<(u64, J)> = Vec::new();
+    for (_, _, path, _, _, _) in &children {
+        match read_shard(path) {
+            Ok(d) => {
+                runs.extend(d.runs);
+                out.stats.merge(&d.stats);
+                out.found.extend(d.found);
+                harness_errors.extend(d.harness);
+                samples.extend(d.samples);
             }
-        }
-        if let Some(j) = s.sample {
-            if out.samples.len() < 8 {
-                out.samples.push(j);
-            }
+            Err(e) => harness_errors.push(e),
         }
     }
+    runs.sort_by_key(|r| r.0);
+    out.found.sort_by_key(|f| f.run);
+    samples.sort_by_key(|s| s.0);
+    out.samples = samples.into_iter().map(|s| s.1).take(8).collect();
+    if let Some((mut c, path)) = det_child {
+        let _ = c.wait();
+        match read_shard(&path) {
+            Ok(d) => {
+                let by_i: BTreeMap<u64, (u64, u64)> = runs.iter().map(|r| (r.0, (r.1, r.2))).collect();
+                for r in d.runs {
+                    if let Some(a) = by_i.get(&r.0) {
+                        out.determinism_pairs += 1;
+                        if *a != (r.1, r.2) {
+                            out.determinism_mismatches += 1;
+                        }
+                    }
+                }
+                let _ = &det_idx;
+            }
+            Err(e) => harness_errors.push(format!("determinism pass: {}", e)),
+        }
+    }
+    if let Some(p) = &cfg.dump_digests {
+        let mut t = String::new();
+        let found: BTreeSet<u64> = out.found.iter().map(|f| f.run).collect();
+        for r in &runs {
+            t.push_str(&format!("{} {:016x} {:016x} {}\n", r.0, r.1, r.2, found.contains(&r.0) as u8));
+        }
+        let _ = std::fs::write(p, t);
+    }
+    let mut seen = BTreeSet::new();
+    let mut seen_nt = BTreeSet::new();
+    for r in &runs {
+        seen.insert(r.1);
+        if r.3 {
+            seen_nt.insert(r.1);
+        }
+        *out.profiles.entry(r.4.clone()).or_insert(0) += 1;
+    }
+    out.evaluations = runs.len() as u64;
+    if out.evaluations < total && harness_errors.is_empty() {
+        harness_errors.push(format!("only {} of {} runs were executed", out.evaluations, total));
+    }
+    harness_errors.truncate(10);
+    out.harness_errors = harness_errors;
     out.distinct_histories = seen.len() as u64;
     out.distinct_nontrivial = seen_nt.len() as u64;
     out.wall_s = t0.elapsed().as_secs_f64();
+    let _ = std::fs::remove_dir_all(&dir);
     Ok(out)
 }
 
